@@ -3,7 +3,6 @@ use std::sync::atomic::{self, AtomicUsize};
 
 use skipfree::{SkipList, SkipListIterator};
 use sst::bounds_cursor::BoundsCursor;
-use sst::pruning_cursor::PruningCursor;
 use sst::{Cursor, Key, KeyRef};
 
 use super::WriteBatch;
@@ -68,8 +67,11 @@ impl MemTable {
     ) -> Result<MemTableCursor, SError> {
         let iter = self.skiplist.iter();
         let wrapper = SkipListIteratorWrapper { iter };
-        let cursor = PruningCursor::new(wrapper, timestamp)?;
-        let cursor = BoundsCursor::new(cursor, start_bound, end_bound)?;
+        // NOTE:  Do not prune here.  A tombstone in the memtable must stay visible to the merge so
+        // that it shadows older versions of its key in the immutable memtable and the tree; the
+        // caller prunes the merged stream once, at `timestamp`.
+        let _ = timestamp;
+        let cursor = BoundsCursor::new(wrapper, start_bound, end_bound)?;
         Ok(MemTableCursor { cursor })
     }
 }
@@ -129,7 +131,7 @@ impl Cursor for SkipListIteratorWrapper {
 ////////////////////////////////////////// MemTableCursor //////////////////////////////////////////
 
 pub struct MemTableCursor {
-    cursor: BoundsCursor<PruningCursor<SkipListIteratorWrapper>>,
+    cursor: BoundsCursor<SkipListIteratorWrapper>,
 }
 
 impl Cursor for MemTableCursor {
